@@ -15,7 +15,7 @@ import traceback
 sys.path.insert(0, os.path.dirname(os.path.abspath(__file__)))
 from common import MachineryError, Report, VERIF, fresh, validate_trace, NCPU  # noqa: E402
 
-HARNESS_ONLY = ("call", "feat", "expect", "site", "note", "skip", "fname", "hashseed", "_verdict")
+HARNESS_ONLY = ("call", "feat", "expect", "site", "note", "skip", "fname", "hashseed", "_verdict", "derived")
 
 
 def run_generators(pid, tier, seed, nproc, hashseeds, extra_env=None):
@@ -61,6 +61,7 @@ def judge(report, module, events, chunk=60000, timeout=1500, relevant=None):
         e["tid"] = i
     nrej = 0
     summary = {}
+    deferred = []
     for lo in range(0, len(events), chunk):
         part = events[lo:lo + chunk]
         slim = [{k: v for k, v in e.items() if k not in HARNESS_ONLY} for e in part]
@@ -68,6 +69,13 @@ def judge(report, module, events, chunk=60000, timeout=1500, relevant=None):
         report.add_tlc(res, f"trace validation {module} ({len(part)} events)")
         for e in part:
             cl = rejects.get(e["tid"])
+            if cl and "OUTDOM" in cl and e.get("derived") and e.get("expect") != "reject":
+                # the INPUT of this call is the output the code gave for an earlier call of the chain (already judged
+                # there); if that output is outside the oracle's exact domain this link is not judged
+                k = "events_not_judged:input-taken-from-an-earlier-result-outside-the-exact-domain"
+                report.extra[k] = report.extra.get(k, 0) + 1
+                e["_verdict"] = "skipped"
+                continue
             if cl and "OUTSKIP" in cl and e.get("expect") != "reject":
                 k = "events_not_judged:result-outside-the-oracles-exact-domain"
                 report.extra[k] = report.extra.get(k, 0) + 1
@@ -81,7 +89,9 @@ def judge(report, module, events, chunk=60000, timeout=1500, relevant=None):
             e["_verdict"] = "rejected" if cl else "accepted"
             if cl and relevant is not None and e.get("expect") != "reject":
                 if "OUTDOM" in cl:
-                    raise MachineryError(f"input outside the oracle's exact domain: {json.dumps(e)[:800]}")
+                    deferred.append(f"input outside the oracle's exact domain: {json.dumps(e)[:800]}")
+                    e["_verdict"] = "skipped"
+                    continue
                 other = cl - relevant   # clauses judged by other checks, or conformance-only observations
                 for c in other:
                     report.extra.setdefault("clauses_not_counted_as_violation", {}).setdefault(c, 0)
@@ -95,7 +105,10 @@ def judge(report, module, events, chunk=60000, timeout=1500, relevant=None):
             report.traces += 1
             if cl:
                 if "OUTDOM" in cl:
-                    raise MachineryError(f"input outside the oracle's exact domain: {json.dumps(e)[:800]}")
+                    deferred.append(f"input outside the oracle's exact domain: {json.dumps(e)[:800]}")
+                    e["_verdict"] = "skipped"
+                    report.traces -= 1
+                    continue
                 if "ORACLE" in cl:
                     raise MachineryError(f"the specification's oracle disagrees with its cross-check: {json.dumps(e)[:800]}")
                 nrej += 1
@@ -105,6 +118,13 @@ def judge(report, module, events, chunk=60000, timeout=1500, relevant=None):
                 key = f"{e['op']}:{site}:{'+'.join(sorted(cl))}:{json.dumps(e.get('call'), sort_keys=True)}"
                 desc = f"{e['op']} at {site}: spec rejects clause(s) {sorted(cl)}; input={json.dumps(e.get('call'))[:400]} observed={json.dumps({k: e[k] for k in e if k in ('res', 'exc', 'keys', 'dist', 'chart', 'entries')})[:300]}"
                 report.violation(key, desc, {"module": module, "event": e})
+    if deferred:
+        # An input the generator built (through library calls) lies outside the oracle's exact domain.  On correct code
+        # that is a slip of the generator (exit 2).  If the same run already holds violations - observations of the real
+        # code that the specification rejects - those stand on their own and are reported; the lines are not judged.
+        if not report.violations:
+            raise MachineryError(deferred[0])
+        report.extra["events_not_judged:input-outside-the-exact-domain-in-a-run-with-violations"] = len(deferred)
     if summary and os.environ.get("VERIF_DEBUG"):
         for k2, n in sorted(summary.items(), key=str):
             print("  rejects:", n, k2)
@@ -194,6 +214,10 @@ def main(argv):
         return report.finish()
     except MachineryError as ex:
         print(f"MACHINERY-FAILURE property={pid}: {ex}")
+        if report.violations:
+            # violations already established on the real code stand on their own: report them (exit 1)
+            report.extra["machinery_failure_after_violations"] = str(ex)[:300]
+            return report.finish()
         return 2
     except Exception:
         traceback.print_exc()
